@@ -114,6 +114,21 @@ def rpms_case(desc):
         check(parsed == before, "caller-document-modified", lambda: "the parsed document handed to deserialize() was modified: %s" % diff(before, parsed))
         d = diff(want, reader.rpms)
         check(d is None, "refiling-differs", lambda: "reader #%d of the same parsed document: %s" % (n, d))
+    # a reader with a past: it has filed a package of its own under the document's first cell, or has read the document before -
+    # an rpms reader starts from the document it is given, so the result is the same
+    cells = sorted((v, a) for v in want for a in want[v])
+    for past in ("added-before", "loaded-before"):
+        reader = Rpms()
+        if past == "added-before" and cells:
+            v, a = cells[0]
+            must("add-before-load", reader.add, v, a, "zz-early-0:1-1.%s" % a, "early/zz.rpm", None, "binary", "zz-early-0:1-1.src")
+        else:
+            must("load-rpms-0.3", reader.loads, json.dumps(doc))
+        must("load-rpms-0.3-into-used-reader", reader.loads, json.dumps(doc))
+        d = diff(want, reader.rpms)
+        check(d is None, "refiling-differs", lambda: "reader with a past (%s): %s" % (past, d))
+        d = diff(want, json.loads(must("dumps-after-upgrade", reader.dumps))["payload"]["rpms"])
+        check(d is None, "dumped-refiling-differs", lambda: "reader with a past (%s): %s" % (past, d))
     text = must("dumps-after-upgrade", r.dumps)
     payload = json.loads(text)["payload"]
     check("manifest" not in payload, "legacy-table-in-dump", "dump still has a 'manifest' table")
